@@ -107,8 +107,8 @@ def _node(draw, depth):
 
 
 @st.composite
-def gen_money(draw):
-    return {"k": "money", "prog": [draw(_node(0)) for _ in range(draw(st.integers(1, 7)))]}
+def gen_money(draw, max_top=7):
+    return {"k": "money", "prog": [draw(_node(0)) for _ in range(draw(st.integers(1, max_top)))]}
 
 
 @st.composite
@@ -137,7 +137,7 @@ def gen_generic(draw):
 def parts(tier):
     big = tier == "thorough"
     return [Part("enum", "enum", enum=enum_programs(5 if big else 4), exhaustive=True, shards=32),
-            Part("money", "hyp", strategy=gen_money(), n=200000 if big else 12000),
+            Part("money", "hyp", strategy=gen_money(14 if big else 7), n=300000 if big else 12000),
             Part("generic", "hyp", strategy=gen_generic(), n=200000 if big else 12000, chunk=3000)]
 
 
